@@ -34,25 +34,26 @@ EXHAUSTIVE = {"quick": False, "thorough": False}
 NASTY = ["t", "t_", "t_start", "T0", "é1", "1", "a b", "t_end", "x_busy", "Indicator_q", "horizon"]
 
 
-def admit_vector(spec, cands):
+def admit_vector(spec, cands, extra=None):
     s0 = dict(spec, objectives=[])
     out = []
     for c in cands:
-        res = pr.run_solve(s0, {"pins": pr.candidate_pins(s0, c, pin_selections=False, pin_dynamic=False)})
+        res = pr.run_solve(s0, dict({"pins": pr.candidate_pins(s0, c, pin_selections=False, pin_dynamic=False)},
+                                    **(extra or {})))
         out.append(res["outcome"] if res["outcome"] in ("sat", "unsat") else "other:" + res["outcome"])
     return out
 
 
-def signature(spec, cands):
+def signature(spec, cands, extra=None):
     sig = {}
-    res = pr.run_solve(spec, {"solver": {"max_time": 30}}, keep=True)
+    res = pr.run_solve(spec, dict({"solver": {"max_time": 30}}, **(extra or {})), keep=True)
     sig["verdict"] = res["outcome"]
     if res["outcome"] in ("exception", "build_error"):
         sig["exc"] = (res.get("exc") or {}).get("type")
     sig["optimum"] = None
     if res["outcome"] == "sat" and spec.get("objectives"):
         sig["optimum"] = c07.observed_value(spec, res, res["_built"])
-    sig["admits"] = admit_vector(spec, cands)
+    sig["admits"] = admit_vector(spec, cands[:4] if extra else cands, extra)
     return sig
 
 
@@ -211,6 +212,23 @@ def run_twins(case):
                           {"candidate": cands[diff[0]], "base": base["admits"][diff[0]], "twin_admit": sig["admits"][diff[0]],
                            "twin": twin, "mapping": mapping})
         acc.count(acc.clauses, f"C14.twin.{kind}:{'T' if ok else 'F'}")
+    # the same problem declared in two halves, another (multi-objective) problem being solved in between
+    for wi, warm in enumerate(({"optimizer": "incremental"}, {"optimizer": "optimize", "optimize_priority": "weight"})):
+        if wi == 1 and case["rng"] % 2:
+            continue
+        sig = signature(spec, cands, {"interleaved": warm})
+        acc.executions += 1 + min(len(cands), 4)
+        acc.sigs.add(common.h([common.h(spec), "interleaved", wi, case["rng"]]))
+        same = (sig["verdict"] == base["verdict"] and sig["optimum"] == base["optimum"]
+                and sig["admits"] == base["admits"][:len(sig["admits"])])
+        acc.count(acc.clauses, f"C14.twin.interleaved:{'T' if same else 'F'}")
+        if not same:
+            acc.violation("C14.history_dependence", "interleaved-solve",
+                          {"prefix": "interleaved", "what": "verdict" if sig["verdict"] != base["verdict"] else
+                           ("optimum" if sig["optimum"] != base["optimum"] else "admits"),
+                           "kinds": sorted(common.kinds_in(spec))[:6]},
+                          {"base": {k: base[k] for k in ("verdict", "optimum")},
+                           "interleaved": {k: sig[k] for k in ("verdict", "optimum")}, "warm": warm})
     acc.count(acc.outcomes, f"base:{base['verdict']}")
     acc.sample = {"spec": spec, "signature": {"verdict": base["verdict"], "optimum": base["optimum"],
                                               "admits": base["admits"][:10]}}
